@@ -182,7 +182,7 @@ func (ci *chainInst) close() {
 	}
 }
 
-func openChain(w *world, dir string, create bool) (*chainInst, error) {
+func openChain(w *world, dir string, create bool, utxoCache uint64) (*chainInst, error) {
 	params := makeParams(w.id)
 	var db database.DB
 	var err error
@@ -200,7 +200,7 @@ func openChain(w *world, dir string, create bool) (*chainInst, error) {
 	hashc := txscript.NewHashCache(1000)
 	chain, err := blockchain.New(&blockchain.Config{
 		DB: db, ChainParams: params, TimeSource: clock, SigCache: sigc, HashCache: hashc,
-		UtxoCacheMaxSize: 1 << 20,
+		UtxoCacheMaxSize: utxoCache,
 	})
 	if err != nil {
 		db.Close()
@@ -320,7 +320,7 @@ func buildWorld(id int) (*world, error) {
 		return nil, err
 	}
 	w := &world{id: id, dir: dir}
-	ci, err := openChain(w, filepath.Join(dir, "db"), true)
+	ci, err := openChain(w, filepath.Join(dir, "db"), true, 1<<20)
 	if err != nil {
 		return nil, err
 	}
@@ -445,7 +445,11 @@ func copyDir(src, dst string) error {
 }
 
 // instantiate opens a private copy of the world's chain.
-func (w *world) instantiate() (*chainInst, error) {
+func (w *world) instantiate() (*chainInst, error) { return w.instantiateCache(1 << 20) }
+
+// instantiateCache opens a private copy with the given utxo cache size (the
+// world was built with 1 MiB; 0 flushes on every block).
+func (w *world) instantiateCache(utxoCache uint64) (*chainInst, error) {
 	dir, err := os.MkdirTemp(tmpBase(), "c12case-")
 	if err != nil {
 		return nil, err
@@ -454,7 +458,7 @@ func (w *world) instantiate() (*chainInst, error) {
 		os.RemoveAll(dir)
 		return nil, err
 	}
-	ci, err := openChain(w, filepath.Join(dir, "db"), false)
+	ci, err := openChain(w, filepath.Join(dir, "db"), false, utxoCache)
 	if err != nil {
 		os.RemoveAll(dir)
 		return nil, err
